@@ -168,4 +168,46 @@ REGISTRY = {
         'explanation': 'bounded stand-in for the editing contracts of '
                        'Circuit against the timeline reference model',
     },
+    'C07': {
+        'level': 'proof',
+        'technique': 'contract-based deductive verification (VCs from the '
+                     'real source, z3) of the value-routing chain + bounded '
+                     'stand-ins (same contracts; exhaustive line '
+                     'interleaving of the two worker threads)',
+        'level_text': 'the chain submit -> return address -> RESULT routing '
+                      '(server, manager) -> mailbox slot -> value handed to '
+                      'the awaiting task is under contract hop by hop and '
+                      'every obligation is discharged by z3: a future is '
+                      'tied to a fresh mailbox, the task reports to exactly '
+                      'that address, results are forwarded unchanged to the '
+                      'responsible employee, land in their own slot, wake '
+                      'the waiter exactly when complete (or on next()), '
+                      'next() batches are disjoint and complete, and both '
+                      'critical sections run inside the mailbox mutex on '
+                      'every path',
+        'level_note': 'sequential contracts; thread interleavings of the '
+                      'worker are covered only by the bounded interleaving '
+                      'exploration (two methods, source-line granularity, '
+                      '<= 2/3 preemptions); Worker.map, the coroutine '
+                      'machinery (step/start/cancel) and the client library '
+                      'are outside the subset (map: bounded native '
+                      'contract); liveness and global exactly-once '
+                      'execution are not decided',
+        'parts': [
+            {'kind': 'bounded', 'module': 'contracts.c07'},
+            {'kind': 'custom', 'module': 'pybound.c07_checks'},
+            {'kind': 'pyvc', 'module': 'contracts.c07'},
+        ],
+        'rule': 'A: obligations of the routing functions, all paths; B: same '
+                'contracts on small workers/servers/managers; interleaving: '
+                'all schedules of six two-thread scenarios; non-trivial = '
+                'message sent, value returned, exception, field changed / '
+                'distinct line traces',
+        'explanation': 'contract-based deductive verification of the value '
+                       'routing chain plus bounded stand-ins',
+        'trusted_base': [
+            'contracts/runtime_prog.py external models (Connection, Queue, '
+            'Lock as an effect sink)',
+        ],
+    },
 }
